@@ -549,7 +549,8 @@ func c16r3(c *Check) {
 	lineVals := map[ssa.Value]bool{}
 	for _, f := range samePkgCallees(c.P, pif) {
 		allInstrs(f, func(in ssa.Instruction) {
-			if call, ok := in.(*ssa.Call); ok && calleeName(call.Common()) == "strings.SplitN" {
+			// the key/value split: strings.SplitN(line, "=", n) or its two-result form strings.Cut(line, "=")
+			if call, ok := in.(*ssa.Call); ok && (calleeName(call.Common()) == "strings.SplitN" || calleeName(call.Common()) == "strings.Cut") {
 				if sep, _ := constString(call.Call.Args[1]); sep == "=" {
 					splitArg, splitAt = call.Call.Args[0], in
 				}
@@ -636,8 +637,8 @@ func c16r3(c *Check) {
 			return len(x.Edges) > 0
 		case *ssa.Extract:
 			// strings.Cut(line, "=") style
-			if call, ok := x.Tuple.(*ssa.Call); ok && (calleeName(call.Common()) == "strings.Cut") && x.Index == 1 {
-				return true
+			if call, ok := x.Tuple.(*ssa.Call); ok && (calleeName(call.Common()) == "strings.Cut") {
+				return x.Index == 1 && ssa.Instruction(call) == splitAt
 			}
 			// one of several results of a helper of the package (key, value, err := parseKeyValue(line))
 			if call, ok := x.Tuple.(*ssa.Call); ok {
